@@ -112,7 +112,14 @@ def r2_false_implies_reported(ctx):
             ok = path is None
             if not ok:
                 # silent branch of the date/time type list?
-                tl = any(p.kind == 'test' and 'valid_type' in norm(p.ast) for p in path)
+                # (the verdict stands inside an `if` on the type list: it is control dependent on that test)
+                tl = False
+                anc = A.parent(c.stmt)
+                while anc is not None and anc is not fn:
+                    if isinstance(anc, ast.If) and ('valid_type' in norm(anc.test) or 'type_list' in norm(anc.test, 200)):
+                        tl = True
+                    anc = A.parent(anc)
+                tl = tl and qual.startswith('element_if')
                 if tl:
                     bad = _date_type_lists_ok(ctx)
                     if not bad:
@@ -261,7 +268,20 @@ def r3_sources_and_atoms(ctx):
     yield Ob('codes:ExternalCodes.__init__ splits the exclusion list on commas', ok, ctx.floc(ci), '' if ok else 'changed')
     # charset and version reach the recogniser
     dt = [c for c in A.calls_in(fn) if A.call_target(c)[1] == 'IsValidDataType']
-    ok = len(dt) == 2 and [norm(a) for a in dt[0].args] == ['elem_val', 'data_type', "self.root.param.get('charset')", 'self.root.icvn']
+    def resolved(a):
+        # a local bound once in the function stands for the expression it was bound to
+        seen = 0
+        while isinstance(a, ast.Name) and seen < 5:
+            defs = [st.value for st in ast.walk(fn) if isinstance(st, ast.Assign) and len(st.targets) == 1 and path_of(st.targets[0]) == a.id]
+            if len(defs) != 1:
+                break
+            a = defs[0]
+            seen += 1
+        return norm(a)
+    want = [('elem_val', 'elem.get_value()'), ('data_type', "data_ele['data_type']", "self.root.data_elements.get_by_elem_num(self.data_ele)['data_type']"),
+            ("self.root.param.get('charset')",), ('self.root.icvn',)]
+    main = [c for c in dt if len(c.args) == 4]
+    ok = len(dt) == 2 and len(main) == 1 and all(resolved(a) in w for a, w in zip(main[0].args, want))
     yield Ob('map_if:element_if.is_valid hands value, type, charset and version to the recogniser', ok, ctx.floc(fn), '' if ok else 'calls %s' % [norm(c) for c in dt])
 
 
@@ -269,34 +289,58 @@ def r4_presence_usage(ctx):
     fn = ctx.func('map_if', 'element_if.is_valid')
     # the absent/empty block
     blk = None
-    for s in fn.body:
-        if isinstance(s, ast.If) and 'elem is None' in norm(s.test):
-            blk = s
-    if blk is None:
-        raise AnalysisError('element_if.is_valid: absent-value block not found')
-    # inside: usage N/S -> True; usage R: inner condition -> report 1 / else True
+    # An absent or empty value, decided by constant propagation through is_valid for every combination of usage, position in
+    # a composite and usage of that composite: not-used and situational elements are valid without a report; a required
+    # one is reported with code 1 and invalid - except the first component of a composite that is not itself required.
+    from ..absint import traces, NotClosedTest
+    g = ctx.cfg(fn)
+
+    class _Elem(object):
+        _sa_model = True
+
+        def get_value(self):
+            return ''
+
+        def is_composite(self):
+            return False
+
+        def __hash__(self):
+            return 1
+
+        def __eq__(self, o):
+            return isinstance(o, _Elem)
     bad = []
-    inner_r = [s for s in ast.walk(blk) if isinstance(s, ast.If) and 'self.seq' in norm(s.test)]
-    if len(inner_r) != 1:
-        raise AnalysisError('element_if.is_valid: first-component exception not recognised')
-    chain = list(A.branch_chain(blk.body, A.name_or_call_pred('self.usage')))
-    labs = {lab: body for lab, body, extra, node in chain}
-    ok = set(labs) >= {'N', 'S', 'R'}
-    yield Ob('map_if:element_if.is_valid absent value: usage N, S and R handled', ok, ctx.floc(fn, blk), '' if ok else 'branches %s' % sorted(map(str, labs)))
-    for u in ('N', 'S'):
-        b = labs.get(u, [])
-        ok = any(isinstance(s, ast.Return) and A.const(s.value) is True for s in b)
-        yield Ob('map_if:element_if.is_valid absent value with usage %s is valid' % u, ok, ctx.floc(fn, blk), '' if ok else 'not accepted')
-    for seq, pcomp, pus in itertools.product((1, 2), (False, True), ('R', 'S', 'N')):
+    codes_seen = set()
+    n_runs = 0
+    for elem, u, seq, pcomp, pus in itertools.product((None, _Elem()), ('N', 'S', 'R'), (1, 2), (False, True), ('R', 'S', 'N')):
+        env = {'elem': elem, 'self.usage': u, 'self.seq': seq, 'self.parent.usage': pus, 'self.parent.is_composite()': pcomp}
+        if elem is not None:
+            env['elem.get_value()'] = ''
+            env['elem.is_composite()'] = False
         funcs = {'self.parent.is_composite': lambda pc=pcomp: pc}
-        got = bool(A.ev(inner_r[0].test, {'self.seq': seq, 'self.parent.usage': pus, 'self.parent.is_composite()': pcomp}, funcs))
-        want = not (seq == 1 and pcomp and pus != 'R')
-        if got != want:
-            bad.append('seq=%d in_composite=%s composite_usage=%s: %s' % (seq, pcomp, pus, 'missing reported' if got else 'accepted'))
-    yield Ob('map_if:element_if.is_valid required and absent is reported (first component of a situational composite excepted)', not bad, ctx.floc(fn, inner_r[0]),
-             '' if not bad else bad[0])
-    code = [A.const(c.args[2]) for c in A.calls_in(ast.Module(body=inner_r[0].body, type_ignores=[])) if _is_report(c)]
-    yield Ob('map_if:element_if.is_valid missing -> code 1', code == ['1'], ctx.floc(fn, inner_r[0]), '' if code == ['1'] else 'codes %s' % code)
+        try:
+            res = traces(g, env, lambda c: 'report' if _is_report(c) else None, funcs=funcs)
+        except NotClosedTest as e:
+            raise AnalysisError('element_if.is_valid: the handling of an absent value cannot be decided (usage %s): %s' % (u, e))
+        n_runs += 1
+        outs = set()
+        for tr, _e in res:
+            reps = tuple(a_[1][2] if len(a_[1]) > 2 else None for a_ in tr if a_[0] == 'report')
+            rets = [a_[1][0] for a_ in tr if a_[0] == '@return']
+            outs.add((reps, rets[-1] if rets else None))
+        exempt = (seq == 1 and pcomp and pus != 'R')
+        want = {((), True)} if (u in ('N', 'S') or exempt) else {(('1',), False)}
+        for reps, _r in outs:
+            codes_seen.update(reps)
+        if outs != want:
+            bad.append('%s value, usage=%s seq=%d in_composite=%s composite_usage=%s: reports %s' % (
+                'absent' if elem is None else 'empty', u, seq, pcomp, pus, sorted(outs, key=repr)))
+    yield Ob('map_if:element_if.is_valid absent value: usage N, S and R handled', not [b_ for b_ in bad if 'usage=R' not in b_], ctx.floc(fn),
+             '' if not [b_ for b_ in bad if 'usage=R' not in b_] else [b_ for b_ in bad if 'usage=R' not in b_][0], note='%d combinations' % n_runs)
+    badr = [b_ for b_ in bad if 'usage=R' in b_]
+    yield Ob('map_if:element_if.is_valid required and absent is reported (first component of a situational composite excepted)', not badr, ctx.floc(fn),
+             '' if not badr else badr[0])
+    yield Ob('map_if:element_if.is_valid missing -> code 1', codes_seen == {'1'}, ctx.floc(fn), '' if codes_seen == {'1'} else 'codes %s' % sorted(map(str, codes_seen)))
     # not used but present
     nu = [s for s in fn.body if isinstance(s, ast.If) and "self.usage == 'N'" in norm(s.test)]
     ok = len(nu) == 1
@@ -326,21 +370,103 @@ def r4_presence_usage(ctx):
     yield Ob('map_if:composite_if.is_valid too many components reported', len(tm) == 1, ctx.floc(cf), '' if len(tm) == 1 else 'test changed')
     # delegation covers present and missing components: one loop over range(min(len(DATA), N)) validating DATA[i],
     # one over range(min(len(DATA), N), N) validating None - N being the child count, in a local or re-read
-    for fq, data, tag in (('composite_if.is_valid', 'comp_data', 'c15.py:357'), ('segment_if.is_valid', 'seg_data', 'c15.py:362')):
+    for o in _delegation_by_position(ctx):
+        yield o
+
+
+class _Child(object):
+    """a child node of a segment / composite map node, as the delegating validator sees it"""
+    _sa_model = True
+
+    def __init__(self, i, kind):
+        self.i, self.kind = i, kind
+        self.data_ele = '66'
+        self.valid_codes = ()
+        self.usage = 'S'
+
+    def is_composite(self):
+        return self.kind == 'composite'
+
+    def is_element(self):
+        return self.kind == 'element'
+
+    def __hash__(self):
+        return hash(('child', self.i))
+
+    def __eq__(self, o):
+        return isinstance(o, _Child) and o.i == self.i
+
+    def __repr__(self):
+        return 'child%d' % self.i
+
+
+class _Data(object):
+    """a data segment / composite with L positions: len(), [i], get('NN'), get_value('NN'), is_empty(), get_seg_id()"""
+    _sa_model = True
+
+    def __init__(self, n):
+        self.n = n
+
+    def __len__(self):
+        return self.n
+
+    def __getitem__(self, i):
+        if not 0 <= i < self.n:
+            raise IndexError(i)
+        return ('data', i)
+
+    def get(self, refdes):
+        i = int(refdes[-2:]) - 1
+        return ('data', i) if 0 <= i < self.n else None
+
+    def get_value(self, refdes):
+        return 'v'
+
+    def get_seg_id(self):
+        return 'NM1'
+
+    def is_empty(self):
+        return self.n == 0
+
+    def __hash__(self):
+        return hash(('data', self.n))
+
+    def __eq__(self, o):
+        return isinstance(o, _Data) and o.n == self.n
+
+
+def _delegation_by_position(ctx):
+    """each child node validates the data at its own position, the children beyond the data validate None (absent):
+    decided by constant propagation through the delegating validator for every number of children N <= 3 and data
+    length L <= 4 - the sequence of child.is_valid(data, ..) calls must be (child i, data i) for i < min(L, N), then
+    (child i, None) up to N, each child exactly once and in order."""
+    from ..absint import traces, NotClosedTest
+    for fq, dname in (('composite_if.is_valid', 'comp_data'), ('segment_if.is_valid', 'seg_data')):
         f_ = ctx.func('map_if', fq)
-        tab = {'self.get_child_count()': 'N', 'child_count': 'N'}
-        present = missing = 0
-        for lp_ in [s_ for s_ in f_.body if isinstance(s_, ast.For)]:
-            it = norm(A.abstract(lp_.iter, tab), 200)
-            body_txt = ast.unparse(lp_)
-            if it == 'range(min(len(%s), N))' % data and 'is_valid(' in body_txt:
-                present += 1
-            elif it == 'range(min(len(%s), N), N)' % data and 'is_valid(None, errh)' in body_txt:
-                missing += 1
-        ok = present == 1 and missing == 1
-        require_idiom(ok, tag)
-        yield Ob('map_if:%s validates present %s and then the missing ones' % (fq, 'components' if 'composite' in fq else 'elements'), ok, ctx.floc(f_),
-                 '' if ok else 'delegation loops changed')
+        g = ctx.cfg(f_)
+        bad = None
+        runs = 0
+        for N in (1, 2, 3):
+            for L in range(1 if fq.startswith('composite') else 0, 5):    # (an empty situational composite is accepted as a whole, before any delegation)
+                for kind in (('element', 'composite') if fq.startswith('segment') else ('element',)):
+                    kids = tuple(_Child(i, kind) for i in range(N))
+                    data = _Data(L)
+                    env = {'self.children': kids, dname: data, 'self.usage': 'S', 'self.syntax': (), 'self.get_child_count()': N}
+                    funcs = {'self.get_child_count': lambda N=N: N, 'self.get_child_node_by_idx': lambda i, kids=kids: kids[i],
+                             'self.__len__': lambda N=N: N}
+                    try:
+                        res = traces(g, env, lambda c: 'is_valid@recv' if A.call_target(c)[1] == 'is_valid' else None, funcs=funcs)
+                    except NotClosedTest as e:
+                        raise AnalysisError('%s: the delegation to the children cannot be decided (N=%d, L=%d): %s' % (fq, N, L, e))
+                    runs += 1
+                    m = min(L, N)
+                    want = tuple([(kids[i], ('data', i)) for i in range(m)] + [(kids[i], None) for i in range(m, N)])
+                    for tr, _e in res:
+                        got = tuple((a_[1][0], a_[1][1] if len(a_[1]) > 1 else '?') for a_ in tr if a_[0] == 'is_valid@recv')
+                        if got != want and bad is None:
+                            bad = (N, L, got, want)
+        yield Ob('map_if:%s validates present %s and then the missing ones' % (fq, 'components' if 'composite' in fq else 'elements'), bad is None, ctx.floc(f_),
+                 '' if bad is None else 'with %d children and %d data positions the children validate %s; expected %s' % bad, note='%d combinations' % runs)
 
 
 def r6_delegation_always_runs(ctx):
@@ -407,6 +533,16 @@ def r7_dtp_format_from_qualifier(ctx):
         yield Ob('map_if:segment_if.is_valid passes a format list for date/time elements', False, ctx.floc(fn), 'no is_valid(.., .., type list) call')
         return
     env = {'i': 2, 'seg_data.get_seg_id()': 'DTP', 'seg_id': 'DTP', 'child_node.data_ele': '1251'}
+    # the element loop's own names: its index variable stands at element 03, the child node is the DTP03 element
+    lp = A.enclosing(calls[0], (ast.For,))
+    if lp is not None:
+        for x in ast.walk(lp.target):
+            if isinstance(x, ast.Name):
+                env[x.id] = 2
+                for st in ast.walk(lp):
+                    if isinstance(st, ast.Assign) and isinstance(st.value, ast.Call) and A.call_target(st.value)[1] == 'get_child_node_by_idx' \
+                            and st.value.args and path_of(st.value.args[0]) == x.id and isinstance(st.targets[0], ast.Name):
+                        env[st.targets[0].id + '.data_ele'] = '1251'
     taken = []
     for c in calls:
         st = A.enclosing(c, (ast.stmt,))
